@@ -349,6 +349,22 @@ fn gen_noise(rng: &mut Rng, k: usize, n: usize) -> Vec<Item> {
         let pos = rng.usize_below(items.len() + 1);
         items.insert(pos, Item::plain(Role::Noise, Stmt::Expr(bin("+", num(1), st("x")))));
     }
+    if rng.chance(1, 4) {
+        // a run of failing calls: wrong argument counts, and an error raised deep inside a
+        // recursion (whatever is tracked per call must be restored on the error path too)
+        let pos = rng.usize_below(items.len() + 1);
+        if rng.chance(1, 2) {
+            for _ in 0..rng.range(3, 9) {
+                items.insert(pos, Item::plain(Role::Noise, Stmt::Expr(call(lam(&["x"], id("x")), vec![]))));
+            }
+        } else {
+            let f = format!("{}deep", prefix);
+            let depth = rng.range(50, 700);
+            let def = Stmt::Expr(assign(&f, lam(&["n"], cond(bin(".==", id("n"), num(0)), bin("+", num(1), st("x")), call(id(&f), vec![bin("-", id("n"), num(1))])))));
+            items.insert(pos, Item::plain(Role::Noise, Stmt::Expr(call(id(&f), vec![num(depth)]))));
+            items.insert(pos, Item::plain(Role::Noise, def));
+        }
+    }
     if rng.chance(1, 6) {
         let f = format!("{}rec", prefix);
         let def = Stmt::Expr(assign(&f, lam(&["n"], bin("+", num(1), call(id(&f), vec![bin("+", id("n"), num(1))])))));
